@@ -32,7 +32,8 @@ from specs import utf8 as spec  # noqa: E402
 
 LEVEL = "other"
 IMPORTS = [
-    ("C05", ("C05.units", "C05.move"), "`moved over, deleted`: cursor positions are whole characters for every encoded length"),
+    ("C04", None, "`can be typed`: every scalar from U+0020 upward is decoded from its bytes into exactly one character key, none of its bytes being taken for a control"),
+    ("C05", ("C05.units", "C05.move", "C05.content"), "`moved over, deleted`: cursor positions are whole characters for every encoded length"),
     ("C12", ("C12.from_command",), "`h` alone is reserved: no other scalar used as a short option is taken for the help option"),
 ]
 
